@@ -103,14 +103,14 @@ def slp_p_vc(eos_set):
         hyp = stn.ST((T, B), lambda t, b: HYPF(ip.to_z3(t), ip.to_z3(b)), "long")
 
         def log_softmax(I2, x, dim=-1, **k):
-            I2.ex.oblige("log_softmax.over_the_class_dimension_of_the_logits", z3.And(z3.BoolVal(dim in (-1, 2) and x is logits)))
+            I2.ex.oblige("structure.log_softmax.over_the_class_dimension_of_the_logits", z3.And(z3.BoolVal(dim in (-1, 2) and x is logits)))
             return stn.ST((T, B, V), lambda t, b, v: LS(ip.to_z3(t), ip.to_z3(b), ip.to_z3(v)), "float")
 
         I.stubs["torch.nn.functional.log_softmax"] = I.stubs["torch.log_softmax"] = log_softmax
 
         def lens_contract(I2, a, k):
             tok, e, d = a[0], a[1], a[2]
-            I2.ex.oblige("lens.called_on_hyp_eos_dim0", z3.And(z3.BoolVal(d == 0 and tok is hyp), ip.to_z3(e) == EOSV))
+            I2.ex.oblige("structure.lens.called_on_hyp_eos_dim0", z3.And(z3.BoolVal(d == 0 and tok is hyp), ip.to_z3(e) == EOSV))
             bound = lambda bb: z3.Implies(z3.And(0 <= bb, bb < B), z3.And(0 <= FE(bb), FE(bb) <= T))
             I2.ex.assume(z3.ForAll([b_], bound(b_)))
             I2.ex.instance(bound(B0))
